@@ -82,6 +82,17 @@ Theorem C20_change_resolves_back : forall (segs : list (@table (list nat))),
   (forall l, l < shortest_len k segs -> resolve_change (firstn l k) segs = AmbiguousMatch).
 Proof. exact change_resolves_thm. Qed.
 
+(** Refs shadow: the length shown after disambiguate_prefix_with_refs is at least the
+    minimum, its prefix is not a bookmark or tag name (unless the whole id is shown), and
+    every shorter length from the minimum on is such a name. *)
+Theorem C20_refs_shadow : forall k names m,
+  let r := disambiguate_with_refs k names m in
+  let is_name j := existsb (id_eqb (firstn j k)) names in
+  (r = length k \/ (m <= r /\ r < length k /\ is_name r = false)) /\
+  (forall j, m <= j -> j < r -> j < length k -> is_name j = true) /\
+  (m <= length k -> m <= r).
+Proof. exact refs_shadow_thm. Qed.
+
 (** The tables the model builds from a segment's entries are sorted, so the theorems apply to
     what the correspondence run evaluates. *)
 Theorem C20_tables_sorted : forall seg, sorted_tb (commit_table seg) /\ sorted_tb (change_table seg).
